@@ -106,6 +106,64 @@ def reopen (s : FState) (t r : Nat) : Tab :=
   | some e => (alloc s.tab ⟨.priv t, e.ino⟩).1
   | none => s.tab
 
+/-- The arena transition.  The hazard variant answers `Val` from the cached number instead
+    of asking the file whether it is still open. -/
+def arenaStep (cached : Bool) (s : FState) (op : Op) : Arena.State × Out :=
+  if cached then
+    match op with
+    | .val t =>
+      match s.a.tasks[t]? with
+      | some (.reffed k r) =>
+        if (look s.tab (s.rcNum r)).isSome then (setTask s.a t (.opened k r), .valOk)
+        else ({ setTask s.a t (.staleRef k r) with stales := upd s.a.stales t (s.a.stales t + 1) }, .valStale)
+      | _ => (s.a, .bad)
+    | _ => step s.a op
+  else step s.a op
+
+/-- openTemp: a new file, a new descriptor; it stays open while the flight goes on. -/
+def openTmp (s : FState) (k : Nat) : FState :=
+  { s with tab := (alloc s.tab ⟨.tmp k, s.nino⟩).1, nino := s.nino + 1 }
+
+/-- `f.Close()` of the task's private descriptor, then `r.Close()`. -/
+def closeHandle (s : FState) (a' : Arena.State) (t : Nat) (op : Op) : FState :=
+  { s with tab := closeIfDied s.a a' (closeOwner s.tab (.priv t)) (releasedRc s.a op) }
+
+/-- What the transition `op` of the arena machine (outcome `out`, new arena state `a'`) does
+    to the descriptor table. -/
+def effects (s : FState) (op : Op) (out : Out) (a' : Arena.State) : FState :=
+  match op, out with
+  | .fnet k _, .fetched => openTmp s k
+  | .freq k, .requested => openTmp s k
+  | .fbody k _, .neterr =>
+    -- the deferred `f.Close()` of the error paths
+    { s with tab := closeOwner s.tab (.tmp k) }
+  | .cancel t, .leaderCancelled =>
+    -- a transfer in progress fails with its leader's context: the same deferred Close
+    match s.a.tasks[t]? with
+    | some (.waiting k) =>
+      match s.a.flight k with
+      | some f => if f.phase = .requesting then { s with tab := closeOwner s.tab (.tmp k) } else s
+      | none => s
+    | _ => s
+  | .fstore k, .stored =>
+    match fdOf s.tab (.tmp k) with
+    | some n =>
+      { s with tab := retag s.tab (.tmp k) (.rc s.a.nrc),
+               rcIno := upd s.rcIno s.a.nrc (match look s.tab n with
+                 | some e => e.ino
+                 | none => 0),
+               rcNum := upd s.rcNum s.a.nrc n }
+    | none => s
+  | .fstore k, .double => { s with tab := closeOwner s.tab (.tmp k) }
+  | .val t, .valOk =>
+    match s.a.tasks[t]? with
+    | some (.reffed _ r) => { s with tab := reopen s t r }
+    | _ => s
+  | .init t false, .initErr => closeHandle s a' t op
+  | .close t, .closedOk => closeHandle s a' t op
+  | .retry _, .retried => { s with tab := closeIfDied s.a a' s.tab (releasedRc s.a op) }
+  | _, _ => s
+
 def fstepG (cached : Bool) (s : FState) : FOp → FState × Out
   | .extOpen => ({ s with tab := (alloc s.tab ⟨.ext, s.nino⟩).1, nino := s.nino + 1 }, .state)
   | .extClose n =>
@@ -113,56 +171,8 @@ def fstepG (cached : Bool) (s : FState) : FOp → FState × Out
     | some ⟨.ext, _⟩ => ({ s with tab := s.tab.set n none }, .state)
     | _ => (s, .bad)
   | .base op =>
-    -- the hazard variant answers `Val` from the cached number instead of asking the file
-    let res : Arena.State × Out :=
-      match cached, op with
-      | true, .val t =>
-        match s.a.tasks[t]? with
-        | some (.reffed k r) =>
-          if (look s.tab (s.rcNum r)).isSome then (setTask s.a t (.opened k r), .valOk)
-          else ({ setTask s.a t (.staleRef k r) with stales := upd s.a.stales t (s.a.stales t + 1) }, .valStale)
-        | _ => (s.a, .bad)
-      | _, _ => step s.a op
-    let a' := res.1
-    let out := res.2
-    match op, out with
-    | .fnet k _, .fetched | .freq k, .requested =>
-      -- openTemp; the file stays open while the flight goes on
-      let (tab', n) := alloc s.tab ⟨.tmp k, s.nino⟩
-      let _ := n
-      ({ s with a := a', tab := tab', nino := s.nino + 1 }, out)
-    | .fbody k _, .neterr =>
-      -- the deferred `f.Close()` of the error paths
-      ({ s with a := a', tab := closeOwner s.tab (.tmp k) }, out)
-    | .fstore k, .stored =>
-      match fdOf s.tab (.tmp k) with
-      | some n =>
-        let ino := match look s.tab n with
-          | some e => e.ino
-          | none => 0
-        ({ s with a := a', tab := retag s.tab (.tmp k) (.rc s.a.nrc),
-                  rcIno := upd s.rcIno s.a.nrc ino, rcNum := upd s.rcNum s.a.nrc n }, out)
-      | none => ({ s with a := a' }, out)
-    | .fstore k, .double => ({ s with a := a', tab := closeOwner s.tab (.tmp k) }, out)
-    | .val t, .valOk =>
-      match s.a.tasks[t]? with
-      | some (.reffed _ r) => ({ s with a := a', tab := reopen s t r }, out)
-      | _ => ({ s with a := a' }, out)
-    | .init t false, .initErr | .close t, .closedOk =>
-      -- `f.Close()` then `r.Close()`
-      ({ s with a := a', tab := closeIfDied s.a a' (closeOwner s.tab (.priv t)) (releasedRc s.a op) }, out)
-    | .cancel t, .leaderCancelled =>
-      -- a transfer in progress fails with its leader's context: the deferred `f.Close()`
-      match s.a.tasks[t]? with
-      | some (.waiting k) =>
-        match s.a.flight k with
-        | some f => if f.phase = .requesting then ({ s with a := a', tab := closeOwner s.tab (.tmp k) }, out)
-                    else ({ s with a := a' }, out)
-        | none => ({ s with a := a' }, out)
-      | _ => ({ s with a := a' }, out)
-    | .retry _, .retried =>
-      ({ s with a := a', tab := closeIfDied s.a a' s.tab (releasedRc s.a op) }, out)
-    | _, _ => ({ s with a := a' }, out)
+    let res := arenaStep cached s op
+    ({ effects s op res.2 res.1 with a := res.1 }, res.2)
 
 /-- The code as it is. -/
 def fstep : FState → FOp → FState × Out := fstepG false
